@@ -29,6 +29,7 @@ class Scheduler:
         self.overlap_handoffs = 0  # hand-offs while >=2 threads were mid-operation
         self.started = [False] * n
         self.lines = [0] * n
+        self.log = None  # set to [] to record (file, line) of every traced line of thread 0
 
     def _wait_turn(self, i):
         if not self.gates[i].acquire(timeout=self.timeout):
@@ -40,6 +41,8 @@ class Scheduler:
         def local(frame, event, arg):
             if event == "line":
                 self.lines[i] += 1
+                if i == 0 and self.log is not None:
+                    self.log.append((frame.f_code.co_filename, frame.f_lineno))
                 self.budget -= 1
                 if self.budget <= 0:
                     self.control.release()
